@@ -287,8 +287,7 @@ func (in *Interp) visitInstr(fr *frame, instr ssa.Instruction) continuation {
 			panic(fmt.Sprintf("unexpected x type in IndexAddr: %T", x))
 		}
 		if si, ok := idx.(SymInt); ok && onlyLoaded(instr) && scalarElems(elems) {
-			c := in.ctx
-			inRange := c.Cmp(smt.OpULt, si.T, c.BVConst(uint64(len(elems)), si.T.Sort.W))
+			inRange := in.inRange(si, instr.Index.Type(), len(elems))
 			if !in.decide(inRange) {
 				panic(runtimeError("index out of range"))
 			}
@@ -308,8 +307,7 @@ func (in *Interp) visitInstr(fr *frame, instr ssa.Instruction) continuation {
 		switch x := x.(type) {
 		case Array:
 			if si, ok := idx.(SymInt); ok && scalarElems(x) {
-				c := in.ctx
-				inRange := c.Cmp(smt.OpULt, si.T, c.BVConst(uint64(len(x)), si.T.Sort.W))
+				inRange := in.inRange(si, instr.Index.Type(), len(x))
 				if !in.decide(inRange) {
 					panic(runtimeError("index out of range"))
 				}
@@ -322,7 +320,7 @@ func (in *Interp) visitInstr(fr *frame, instr ssa.Instruction) continuation {
 			}
 			fr.env[instr] = x[i]
 		case string, XStr:
-			fr.env[instr] = in.strIndex(x, idx)
+			fr.env[instr] = in.strIndex(x, idx, instr.Index.Type())
 		case OStr:
 			panic(unsupported("indexing an opaque string"))
 		default:
@@ -344,7 +342,7 @@ func (in *Interp) visitInstr(fr *frame, instr ssa.Instruction) continuation {
 				fr.env[instr] = v
 			}
 		case string, XStr, OStr:
-			fr.env[instr] = in.strIndex(m, fr.get(instr.Index))
+			fr.env[instr] = in.strIndex(m, fr.get(instr.Index), instr.Index.Type())
 		default:
 			panic(fmt.Sprintf("unexpected x type in Lookup: %T", x))
 		}
@@ -590,6 +588,9 @@ func (in *Interp) runFrame(fr *frame) {
 			return // normal return
 		}
 		r := recover()
+		if isTargetPanic(r) && in.lastPanicStack == "" {
+			in.lastPanicStack = stackOf(fr)
+		}
 		if !isTargetPanic(r) {
 			// engine-level abort: annotate once with the frame stack
 			if _, ok := r.(*enginePanic); !ok {
@@ -642,6 +643,7 @@ func (in *Interp) doRecover(caller *frame) Value {
 		caller.caller.panicking = false
 		p := caller.caller.panic
 		caller.caller.panic = nil
+		in.lastPanicStack = ""
 		switch p := p.(type) {
 		case targetPanic:
 			return p.v
@@ -863,3 +865,15 @@ func stackOf(fr *frame) string {
 }
 
 var _ = runtime.GOOS
+
+// inRange builds 0 <= idx < n for an index of the given static type,
+// computed in 64 bits so that n >= 2^width cannot wrap.
+func (in *Interp) inRange(idx SymInt, t types.Type, n int) *smt.Term {
+	_, signed, ok := intInfo(t)
+	if !ok {
+		signed = true
+	}
+	c := in.ctx
+	ext := c.Resize(idx.T, 64, signed)
+	return c.Cmp(smt.OpULt, ext, c.BVConst(uint64(n), 64))
+}
